@@ -83,6 +83,9 @@ def resolve(repo, spec):
     If the function is not at that place, a unique definition with the same qualified name elsewhere under gfapy/ is used
     (DESIGN §3, robustness to moves); returns (func, moved_from or None)."""
     path, qual = spec.split("::")
+    setter = qual.endswith("#set")          # 'Class.prop#set': the setter of a property
+    if setter:
+        qual = qual[:-4]
     ensure_importable(repo)
     def get(path):
         mod = path[:-3].replace("/", ".")
@@ -94,6 +97,10 @@ def resolve(repo, spec):
             if inspect.isclass(o) and part.startswith("__") and not part.endswith("__"):
                 part = "_%s%s" % (o.__name__.lstrip("_"), part)        # private name mangling
             o = inspect.getattr_static(o, part) if inspect.isclass(o) else getattr(o, part)
+        if setter:
+            if not isinstance(o, property) or o.fset is None:
+                raise AttributeError("no setter for %s" % qual)
+            return o.fset
         return unwrap(o)
     try:
         return get(path), None
